@@ -303,11 +303,13 @@ Section ExecProofs.
   Definition P_all (fuel : nat) : Prop :=
     (forall depth fc m s r s', RUN fuel depth fc m s = Some (r, s') -> Q s s') /\
     (forall depth hint fc gas s r s', RUNF fuel depth hint fc gas s = Some (r, s') -> Q s s') /\
-    (forall depth hint ps caller addr input gas value s r s', CALL fuel depth hint ps caller addr input gas value s = Some (r, s') -> Q s s') /\
+    (forall depth hint ps caller addr input gas value s r s', CALL fuel depth hint ps caller addr input gas value s = Some (r, s') ->
+        exists s2, s' = EXIT s2 r /\ Q (SAVE s caller (Some addr) input value gas) s2) /\
     (forall depth hint pf addr input gas value s r s', CALLCODE fuel depth hint pf addr input gas value s = Some (r, s') -> Q s s') /\
     (forall depth hint pf addr input gas s r s', DELEGATE fuel depth hint pf addr input gas s = Some (r, s') -> Q s s') /\
     (forall depth hint pf addr input gas s r s', STATIC fuel depth hint pf addr input gas s = Some (r, s') -> Q s s') /\
-    (forall depth hint caller code gas value address typ s r s', CREATE fuel depth hint caller code gas value address typ s = Some (r, s') -> Q s s').
+    (forall depth hint caller code gas value address typ s r s', CREATE fuel depth hint caller code gas value address typ s = Some (r, s') ->
+        exists s2, s' = EXIT s2 r /\ Q (SAVE s caller None code value gas) s2).
 
   Ltac qchain := repeat first [apply Q_refl | apply Q_emit | apply Q_set_w | apply Q_dopen | apply Q_dclose | apply Q_transfer
                                | (eapply Q_trans; [|solve [apply Q_emit | apply Q_set_w | apply Q_dopen | apply Q_dclose | apply Q_transfer | apply Q_refl]])].
@@ -327,7 +329,7 @@ Section ExecProofs.
         assert (Q1 : Q s s1) by (eapply Q_trans; [apply Q_set_w|apply Q_emit]).
         destruct k.
         * match goal with |- context [match ?X with _ => _ end] => destruct X as [[r2 s2]|] eqn:EC end; [|intros; discriminate].
-          intros E. eapply Q_trans; [exact Q1|]. eapply Q_trans; [eapply IHcall; exact EC|eapply IHrun; exact E].
+          intros E. destruct (IHcall _ _ _ _ _ _ _ _ _ _ _ EC) as [sx [-> Qx]]. eapply Q_trans; [exact Q1|]. eapply Q_trans; [eapply Q_bracket; exact Qx|eapply IHrun; exact E].
         * match goal with |- context [match ?X with _ => _ end] => destruct X as [[r2 s2]|] eqn:EC end; [|intros; discriminate].
           intros E. eapply Q_trans; [exact Q1|]. eapply Q_trans; [eapply IHcc; exact EC|eapply IHrun; exact E].
         * match goal with |- context [match ?X with _ => _ end] => destruct X as [[r2 s2]|] eqn:EC end; [|intros; discriminate].
@@ -337,7 +339,7 @@ Section ExecProofs.
       + set (s1 := emit W (set_w W s w') ev).
         assert (Q1 : Q s s1) by (eapply Q_trans; [apply Q_set_w|apply Q_emit]).
         match goal with |- context [match ?X with _ => _ end] => destruct X as [[r2 s2]|] eqn:EC end; [|intros; discriminate].
-        intros E. eapply Q_trans; [exact Q1|]. eapply Q_trans; [eapply IHcr; exact EC|eapply IHrun; exact E].
+        intros E. destruct (IHcr _ _ _ _ _ _ _ _ _ _ _ EC) as [sx [-> Qx]]. eapply Q_trans; [exact Q1|]. eapply Q_trans; [eapply Q_bracket; exact Qx|eapply IHrun; exact E].
       + destruct (jop (jr_storage j) keccak (jr_op j) (f_self fc) (jr_mem j) (jr_stack j) (xt (emit W s ev))) as [t' rj] eqn:EJ.
         intros E. eapply Q_trans; [|eapply IHrun; exact E].
         apply Q_same_tc. cbn. pose proof (tc_jop (jr_storage j) keccak (jr_op j) (f_self fc) (jr_mem j) (jr_stack j) (xt (emit W s ev))) as T.
@@ -350,27 +352,27 @@ Section ExecProofs.
       intros depth hint ps caller addr input gas value s r s'. cbn [do_call]. cbv beta zeta.
       set (s1 := SAVE s caller (Some addr) input value gas).
       destruct (Nat.ltb max_depth depth).
-      { intros E; inversion E; subst. cbn [fst snd]. eapply Q_bracket. apply Q_refl. }
+      { intros E; inversion E; subst. cbn [fst snd]. eexists; split; [reflexivity|]. apply Q_refl. }
       destruct (negb (value =? 0) && negb (can_transfer (xw s1) caller value)).
-      { intros E; inversion E; subst. cbn [fst snd]. eapply Q_bracket. apply Q_refl. }
+      { intros E; inversion E; subst. cbn [fst snd]. eexists; split; [reflexivity|]. apply Q_refl. }
       destruct (negb (exists_acct (xw s1) addr) && negb (is_precompile addr) && is_eip158 && (value =? 0)).
-      { intros E; inversion E; subst. cbn [fst snd]. eapply Q_bracket. eapply Q_trans; [apply Q_dopen|apply Q_dclose]. }
+      { intros E; inversion E; subst. cbn [fst snd]. eexists; split; [reflexivity|]. eapply Q_trans; [apply Q_dopen|apply Q_dclose]. }
       set (s2 := if exists_acct (xw s1) addr then s1 else set_w W s1 (create_account (xw s1) addr)).
       assert (Q2 : Q s1 s2) by (subst s2; destruct (exists_acct (xw s1) addr); [apply Q_refl|apply Q_set_w]).
       set (s3 := DOPEN (TRANSFER s2 caller addr value) depth 0xf1 caller addr false input gas (Some value)).
       assert (Q3 : Q s1 s3) by (eapply Q_trans; [exact Q2|]; eapply Q_trans; [apply Q_transfer|apply Q_dopen]).
       destruct (is_precompile addr).
       { destruct (tail W (xw s1) (precompile addr (if artela then Some caller else None) input gas) s3) as [r' s''] eqn:T.
-        intros E; inversion E; subst. cbn [fst snd]. eapply Q_bracket.
+        intros E; inversion E; subst. cbn [fst snd]. eexists; split; [reflexivity|].
         eapply Q_trans; [exact Q3|]. eapply Q_trans; [eapply Q_tail; exact T|apply Q_dclose]. }
       destruct (code_of (xw s3) addr) as [|c0 code].
-      { intros E; inversion E; subst. cbn [fst snd]. eapply Q_bracket. eapply Q_trans; [exact Q3|apply Q_dclose]. }
+      { intros E; inversion E; subst. cbn [fst snd]. eexists; split; [reflexivity|]. eapply Q_trans; [exact Q3|apply Q_dclose]. }
       match goal with |- context [match ?X with _ => _ end] => remember X as PRE eqn:EP end.
       destruct PRE as [[[pret pgas] perr] s4]. symmetry in EP.
       assert (Q4 : Q s3 s4).
       { destruct (artela && jp_on); [eapply Q_join_point; exact EP|inversion EP; subst; apply Q_refl]. }
       destruct perr as [e|].
-      { intros E; inversion E; subst. cbn [fst snd]. eapply Q_bracket.
+      { intros E; inversion E; subst. cbn [fst snd]. eexists; split; [reflexivity|].
         eapply Q_trans; [exact Q3|]. eapply Q_trans; [exact Q4|]. eapply Q_trans; [apply Q_set_w|apply Q_dclose]. }
       match goal with |- context [match ?X with _ => _ end] => remember X as RF eqn:ER end.
       destruct RF as [[rr s5]|]; [|discriminate]. symmetry in ER.
@@ -383,7 +385,7 @@ Section ExecProofs.
           destruct qerr; inversion EQ; subst; exact Q7.
         - inversion EQ; subst. apply Q_refl. }
       destruct (tail W (xw s1) rq s6) as [r' s''] eqn:T.
-      intros E; inversion E; subst. cbn [fst snd]. eapply Q_bracket.
+      intros E; inversion E; subst. cbn [fst snd]. eexists; split; [reflexivity|].
       eapply Q_trans; [exact Q3|]. eapply Q_trans; [exact Q4|]. eapply Q_trans; [eapply IHrunf; exact ER|].
       eapply Q_trans; [exact Q6|]. eapply Q_trans; [eapply Q_tail; exact T|apply Q_dclose].
     - (* do_callcode *)
@@ -433,22 +435,22 @@ Section ExecProofs.
       intros depth hint caller code gas value address typ s r s'. cbn [do_create]. cbv beta zeta.
       set (s1 := SAVE s caller None code value gas).
       destruct (Nat.ltb max_depth depth).
-      { intros E; inversion E; subst. cbn [fst snd]. eapply Q_bracket. apply Q_refl. }
+      { intros E; inversion E; subst. cbn [fst snd]. eexists; split; [reflexivity|]. apply Q_refl. }
       destruct (negb (can_transfer (xw s1) caller value)).
-      { intros E; inversion E; subst. cbn [fst snd]. eapply Q_bracket. apply Q_refl. }
+      { intros E; inversion E; subst. cbn [fst snd]. eexists; split; [reflexivity|]. apply Q_refl. }
       destruct (two64 <=? get_nonce (xw s1) caller + 1).
-      { intros E; inversion E; subst. cbn [fst snd]. eapply Q_bracket. apply Q_refl. }
+      { intros E; inversion E; subst. cbn [fst snd]. eexists; split; [reflexivity|]. apply Q_refl. }
       set (s2 := set_w W s1 (set_nonce (xw s1) caller (get_nonce (xw s1) caller + 1))).
       set (s3 := if is_berlin then set_w W s2 (acl_add (xw s2) address) else s2).
       assert (Q3 : Q s1 s3).
       { eapply Q_trans; [apply (Q_set_w s1)|]. fold s2. subst s3. destruct is_berlin; [apply Q_set_w|apply Q_refl]. }
       destruct (collides (xw s3) address).
-      { intros E; inversion E; subst. cbn [fst snd]. eapply Q_bracket. exact Q3. }
+      { intros E; inversion E; subst. cbn [fst snd]. eexists; split; [reflexivity|]. exact Q3. }
       match goal with |- context [match ?X with _ => _ end] => remember X as RF eqn:ER end.
       destruct RF as [[rr s5]|]; [|discriminate]. symmetry in ER.
       match goal with |- context [match ?X with _ => _ end] => remember X as CF eqn:EF end.
       destruct CF as [r' s6]. symmetry in EF.
-      intros E; inversion E; subst. cbn [fst snd]. eapply Q_bracket.
+      intros E; inversion E; subst. cbn [fst snd]. eexists; split; [reflexivity|].
       eapply Q_trans; [exact Q3|]. eapply Q_trans; [|apply Q_dclose].
       eapply Q_trans; [|].
       2:{ unfold create_finish in EF.
@@ -470,7 +472,8 @@ Section ExecProofs.
     ct_wf (tc (xt s)) -> ct_wf (tc (xt s')) /\ current (tc (xt s')) = current (tc (xt s)).
   Proof.
     intros E Wf. destruct (calltree_balanced fuel) as [_ [_ [Hc _]]].
-    destruct (Hc _ _ _ _ _ _ _ _ _ _ _ E) as [ops [B Et]]. rewrite Et. split.
+    destruct (Hc _ _ _ _ _ _ _ _ _ _ _ E) as [sx [-> Qx]].
+    destruct (Q_bracket _ _ _ _ _ _ _ r Qx) as [ops [B Et]]. rewrite Et. split.
     - apply ct_wf_fold. exact Wf.
     - apply balanced_restores_cursor; assumption.
   Qed.
@@ -479,9 +482,174 @@ Section ExecProofs.
     ct_wf (tc (xt s)) -> ct_wf (tc (xt s')) /\ current (tc (xt s')) = current (tc (xt s)).
   Proof.
     intros E Wf. destruct (calltree_balanced fuel) as [_ [_ [_ [_ [_ [_ Hc]]]]]].
-    destruct (Hc _ _ _ _ _ _ _ _ _ _ _ E) as [ops [B Et]]. rewrite Et. split.
+    destruct (Hc _ _ _ _ _ _ _ _ _ _ _ E) as [sx [-> Qx]].
+    destruct (Q_bracket _ _ _ _ _ _ _ r Qx) as [ops [B Et]]. rewrite Et. split.
     - apply ct_wf_fold. exact Wf.
     - apply balanced_restores_cursor; assumption.
   Qed.
+
+
+  (** * C08 — every CALL / CREATE attempt is recorded once, with its inputs as made and its outcome as
+      handed back; nothing that runs inside it can alter the record *)
+
+  Lemma bracket_shape s from to data value gas s2 r :
+    artela = true -> Q (SAVE s from to data value gas) s2 ->
+    exists body, balanced body /\
+      tc (xt (EXIT s2 r)) = fold_left ct_step (CAdd from to data value gas :: body ++ [CExit (r_gas r) (r_ret r) (option_map verr_text (r_err r))]) (tc (xt s)).
+  Proof.
+    intros Ha [ops [B E]]. unfold save_call, exit_call in *. rewrite Ha in *. cbn in E.
+    exists ops. split; [exact B|]. cbn. rewrite fold_left_app, <- E. reflexivity.
+  Qed.
+
+  Theorem call_node_recorded fuel depth hint ps caller addr input gas value s r s' :
+    artela = true -> ct_wf (tc (xt s)) ->
+    CALL fuel depth hint ps caller addr input gas value s = Some (r, s') ->
+    exists c, nth_error (calls (tc (xt s'))) (length (calls (tc (xt s)))) = Some c /\
+      c_from c = caller /\ c_to c = Some addr /\ c_data c = input /\ c_value c = value /\ c_gas c = gas /\
+      c_parent c = current (tc (xt s)) /\
+      c_ret c = r_ret r /\ c_rgas c = r_gas r /\ c_err c = option_map verr_text (r_err r) /\ c_exited c = true.
+  Proof.
+    intros Ha Wf E. destruct (calltree_balanced fuel) as [_ [_ [Hc _]]].
+    destruct (Hc _ _ _ _ _ _ _ _ _ _ _ E) as [sx [-> Qx]].
+    destruct (bracket_shape _ _ _ _ _ _ _ r Ha Qx) as [body [B Et]]. rewrite Et.
+    apply bracket_node; assumption.
+  Qed.
+
+  Theorem create_node_recorded fuel depth hint caller code gas value address typ s r s' :
+    artela = true -> ct_wf (tc (xt s)) ->
+    CREATE fuel depth hint caller code gas value address typ s = Some (r, s') ->
+    exists c, nth_error (calls (tc (xt s'))) (length (calls (tc (xt s)))) = Some c /\
+      c_from c = caller /\ c_to c = None /\ c_data c = code /\ c_value c = value /\ c_gas c = gas /\
+      c_parent c = current (tc (xt s)) /\
+      c_ret c = r_ret r /\ c_rgas c = r_gas r /\ c_err c = option_map verr_text (r_err r) /\ c_exited c = true.
+  Proof.
+    intros Ha Wf E. destruct (calltree_balanced fuel) as [_ [_ [_ [_ [_ [_ Hc]]]]]].
+    destruct (Hc _ _ _ _ _ _ _ _ _ _ _ E) as [sx [-> Qx]].
+    destruct (bracket_shape _ _ _ _ _ _ _ r Ha Qx) as [body [B Et]]. rewrite Et.
+    apply bracket_node; assumption.
+  Qed.
+
+  (** ... and every node that existed before is untouched (only the issuing frame's node gains a child) *)
+  Theorem call_preserves_nodes fuel depth hint ps caller addr input gas value s r s' :
+    ct_wf (tc (xt s)) ->
+    CALL fuel depth hint ps caller addr input gas value s = Some (r, s') ->
+    preserved (tc (xt s)) (tc (xt s')).
+  Proof.
+    intros Wf E. destruct (calltree_balanced fuel) as [_ [_ [Hc _]]].
+    destruct (Hc _ _ _ _ _ _ _ _ _ _ _ E) as [sx [-> Qx]].
+    destruct (Q_bracket _ _ _ _ _ _ _ r Qx) as [ops [B Et]]. rewrite Et.
+    apply balanced_preserved; assumption.
+  Qed.
+
+  (** * C06 — gas through join points *)
+
+  Lemma verr_of_text_oog : verr_of_text "out of gas" = VOog.
+  Proof. reflexivity. Qed.
+  Lemma verr_of_text_not_revert e : is_revert (verr_of_text e) = false.
+  Proof. unfold verr_of_text. destruct (String.eqb e "out of gas"); reflexivity. Qed.
+
+  (** a join point that runs out of gas surfaces as the EVM's own out-of-gas error with no gas returned *)
+  Theorem pre_oog_is_evm_oog pret pgas : pre_fail pret pgas "out of gas" = mk pret 0 (Some VOog).
+  Proof. reflexivity. Qed.
+  Theorem post_oog_is_evm_oog w0 r qret qgas (s : xst) :
+    fst (tail W w0 (post_merge r qret qgas (Some "out of gas"%string)) s) = mk (r_ret r) 0 (Some VOog).
+  Proof. reflexivity. Qed.
+  (** any other post-join-point failure forfeits the frame's gas like an exceptional halt and rolls back *)
+  Theorem post_failure_forfeits w0 r qret qgas e (s : xst) :
+    let p := tail W w0 (post_merge r qret qgas (Some e)) s in
+    r_gas (fst p) = 0 /\ r_err (fst p) <> None /\ xw (snd p) = w0.
+  Proof.
+    cbn zeta. unfold post_merge. pose proof (verr_of_text_not_revert e) as Hn.
+    destruct (verr_of_text e); cbn in *; try discriminate; repeat split; discriminate.
+  Qed.
+  (** a succeeding post join point hands back exactly what it left, the frame's own outcome unchanged *)
+  Theorem post_success_gas r qret qgas : post_merge r qret qgas None = mk (r_ret r) qgas (r_err r).
+  Proof. reflexivity. Qed.
+
+  Definition aspect_sane : Prop :=
+    forall n pre a g p, let '(_, g', _) := aspect n pre a g p in g' <= g.
+
+  Lemma run_aspects_gas_le pre from c input value p ids : aspect_sane -> forall gas ret s ret' gas' e' s',
+    run_aspects W asp_logger aspect pre from c input value p ids gas ret s = (ret', gas', e', s') -> gas' <= gas.
+  Proof.
+    intros Hs. induction ids as [|a rest IH]; intros gas ret s ret' gas' e' s' E; cbn in E.
+    - inversion E; subst. lia.
+    - match type of E with context [aspect ?n ?pr ?aa ?g ?pp] => pose proof (Hs n pr aa g pp) as Hg; destruct (aspect n pr aa g pp) as [[r g'] e] end.
+      destruct e as [e|].
+      + inversion E; subst. exact Hg.
+      + apply IH in E. lia.
+  Qed.
+  Lemma join_point_gas_le pre from c input value p gas s ret' gas' e' s' :
+    aspect_sane -> JP pre from c input value p gas s = (ret', gas', e', s') -> gas' <= gas.
+  Proof.
+    intros Hs. unfold join_point. destruct (bound pre c).
+    - intros E. eapply run_aspects_gas_le; eassumption.
+    - intros E; inversion E; subst. lia.
+    - intros E; inversion E; subst. lia.
+  Qed.
+
+  (** no CALL frame hands back more gas than it was given — provided no Aspect, precompile or
+      interpreter run reports more gas left than it received *)
+  Theorem call_gas_le fuel depth hint ps caller addr input gas value s r s' :
+    aspect_sane ->
+    (forall a c i g, r_gas (precompile a c i g) <= g) ->
+    (forall f d h fc g st r0 st', RUNF f d h fc g st = Some (r0, st') -> r_gas r0 <= g) ->
+    CALL fuel depth hint ps caller addr input gas value s = Some (r, s') -> r_gas r <= gas.
+  Proof.
+    intros Hs Hp Hr. destruct fuel as [|f]; [discriminate|]. cbn [do_call]. cbv beta zeta.
+    set (s1 := SAVE s caller (Some addr) input value gas).
+    destruct (Nat.ltb max_depth depth); [intros E; inversion E; subst; cbn; lia|].
+    destruct (negb (value =? 0) && negb (can_transfer (xw s1) caller value)); [intros E; inversion E; subst; cbn; lia|].
+    destruct (negb (exists_acct (xw s1) addr) && negb (is_precompile addr) && is_eip158 && (value =? 0)); [intros E; inversion E; subst; cbn; lia|].
+    set (s2 := if exists_acct (xw s1) addr then s1 else set_w W s1 (create_account (xw s1) addr)).
+    set (s3 := DOPEN (TRANSFER s2 caller addr value) depth 0xf1 caller addr false input gas (Some value)).
+    destruct (is_precompile addr).
+    { destruct (tail W (xw s1) (precompile addr (if artela then Some caller else None) input gas) s3) as [r' s''] eqn:T.
+      intros E; inversion E; subst. cbn [fst]. rewrite (tail_gas _ _ _ _ _ T).
+      pose proof (Hp addr (if artela then Some caller else None) input gas).
+      destruct (r_err _) as [e|]; [destruct (is_revert e)|]; lia. }
+    destruct (code_of (xw s3) addr) as [|c0 code]; [intros E; inversion E; subst; cbn; lia|].
+    match goal with |- context [match ?X with _ => _ end] => remember X as PRE eqn:EP end.
+    destruct PRE as [[[pret pgas] perr] s4]. symmetry in EP.
+    assert (G4 : pgas <= gas).
+    { destruct (artela && jp_on); [eapply join_point_gas_le; eassumption|inversion EP; subst; lia]. }
+    destruct perr as [e|].
+    { intros E; inversion E; subst. cbn [fst]. unfold pre_fail. destruct (verr_of_text e); cbn; lia. }
+    match goal with |- context [match ?X with _ => _ end] => remember X as RF eqn:ER end.
+    destruct RF as [[rr s5]|]; [|discriminate]. symmetry in ER. apply Hr in ER.
+    match goal with |- context [match ?X with _ => _ end] => remember X as POST eqn:EQ end.
+    destruct POST as [rq s6]. symmetry in EQ.
+    assert (G6 : r_gas rq <= r_gas rr).
+    { destruct (artela && jp_on).
+      - match type of EQ with context [match ?X with _ => _ end] => destruct X as [[[qret qgas] qerr] s7] eqn:EJ end.
+        apply join_point_gas_le in EJ; [|exact Hs]. inversion EQ; subst. unfold post_merge.
+        destruct qerr as [e|]; [destruct (verr_of_text e)|]; cbn; lia.
+      - inversion EQ; subst. lia. }
+    destruct (tail W (xw s1) rq s6) as [r' s''] eqn:T.
+    intros E; inversion E; subst. cbn [fst]. rewrite (tail_gas _ _ _ _ _ T).
+    destruct (r_err rq) as [e|]; [destruct (is_revert e)|]; lia.
+  Qed.
+
+  (** * C13 — the balance journal brackets the value transfer with the true balances *)
+  Theorem transfer_recorded_spec (s : xst) from to value :
+    artela = true ->
+    let w := xw s in let w' := transfer w from to value in
+    xw (TRANSFER s from to value) = w' /\
+    xt (TRANSFER s from to value) =
+      t_transfer_record (xt s) from to (balance_of w from) (balance_of w to) (balance_of w' from) (balance_of w' to).
+  Proof. intros Ha. unfold transfer_recorded. rewrite Ha. split; reflexivity. Qed.
+
+  (** the entries are filed under the index of the frame's own node: right after SaveCall the cursor
+      is the node just added *)
+  Theorem save_call_cursor (s : xst) from to data value gas :
+    artela = true ->
+    current_index (tc (xt (SAVE s from to data value gas))) = N.of_nat (length (calls (tc (xt s)))).
+  Proof. intros Ha. unfold save_call. rewrite Ha. reflexivity. Qed.
+
+  (** and the tracer is touched by nothing else in the frame logic: without a journal instruction or a
+      transfer the key tree stays as it is (save/exit only move the call tree) *)
+  Theorem save_exit_keep_keytree (s : xst) from to data value gas r :
+    tk (xt (SAVE s from to data value gas)) = tk (xt s) /\ tk (xt (EXIT s r)) = tk (xt s).
+  Proof. unfold save_call, exit_call. destruct artela; split; reflexivity. Qed.
 
 End ExecProofs.
